@@ -249,3 +249,24 @@ def equal_by_cases(lhs, rhs, box, seed, hyp=None, ints=(), npoints=8, max_conds=
             return v
         last = v
     return last or be.Verdict(be.UNKNOWN, "CAS", detail="no case could be evaluated")
+
+
+def paths_split_on(outs, c, abstract=None):
+    """each path condition must be equivalent (for ALL inputs) to c or to its negation: two validity checks per path.
+    returns a Verdict (PROVED / REFUTED with the model of the failed equivalence)"""
+    sub = abstract or {}
+    last = None
+    for o in outs:
+        pc = tm.land(*o.pc)
+        v1 = be.prove_smt(tm.subst(tm.iff(pc, c), sub), [])
+        if v1.status == be.PROVED:
+            last = v1
+            continue
+        v2 = be.prove_smt(tm.subst(tm.iff(pc, tm.lnot(c)), sub), [])
+        if v2.status == be.PROVED:
+            last = v2
+            continue
+        bad = v1 if v1.status == be.REFUTED else v2
+        bad.detail = f"a path condition {str(pc)[:120]} is neither equivalent to the reference branch condition nor to its negation: " + (bad.detail or "")
+        return bad
+    return last or be.Verdict(be.UNKNOWN, "SMT", detail="no paths")
